@@ -83,15 +83,18 @@ structure HTop where
 
 def parse_h (s : List Octet) (i : Nat) : HTop :=
   let tok := token_h s i
-  -- sx_parse_: result and what it destroyed itself
-  let (r, freed0) : HRes × Nat :=
-    if tok.status == .foundList then
-      let l := list_h s (s.length + 1) tok.pos
-      ({ l with allocs := tok.allocs + l.allocs }, 0)
-    else if tok.isEmptyList then ({ tok with status := .unknownInput, node := .null }, tok.node.weight)
-    else if tok.status == .success ∧ tok.node = .null then ({ tok with status := .unexpectedEnd }, 0)
-    else (tok, 0)
-  if r.isError then { status := r.status, node := .null, pos := r.pos, allocs := r.allocs, freed := freed0 + r.node.weight }
-  else { status := r.status, node := r.node, pos := r.pos, allocs := r.allocs, freed := freed0 }
+  if tok.status == .foundList then
+    -- sx_parse_ hands back what sx_parse_list returned; sx_parse destroys the partial tree of an error
+    let l := list_h s (s.length + 1) tok.pos
+    if l.isError then { status := l.status, node := .null, pos := l.pos, allocs := l.allocs, freed := l.node.weight }
+    else { status := l.status, node := l.node, pos := l.pos, allocs := l.allocs, freed := 0 }
+  else if tok.isEmptyList then
+    -- a closing parenthesis without a list: sx_parse_ destroys the empty-list node itself
+    { status := .unknownInput, node := .null, pos := tok.pos, allocs := tok.allocs, freed := tok.node.weight }
+  else if tok.status == .success ∧ tok.node = .null then
+    { status := .unexpectedEnd, node := .null, pos := tok.pos, allocs := tok.allocs, freed := 0 }
+  else if tok.isError then
+    { status := tok.status, node := .null, pos := tok.pos, allocs := tok.allocs, freed := tok.node.weight }
+  else { status := tok.status, node := tok.node, pos := tok.pos, allocs := tok.allocs, freed := 0 }
 
 end Ufw.Model.SxHeap
